@@ -479,8 +479,12 @@ func (r *run) checkLive(where string, w *row) {
 	r.ms = kept
 }
 
-func (r *run) doAppend(step int, height uint64) {
-	e, d := mkEntry(step+1, height)
+const bulkEntries = 320
+
+func (r *run) doAppend(step int, height uint64) { r.doAppendPos(step, step+1, height) }
+
+func (r *run) doAppendPos(step, pos int, height uint64) {
+	e, d := mkEntry(pos, height)
 	r.call("append", step, func() error { return r.st.SetWALEntry(e) }, func(err error, w *row) {
 		if err != nil {
 			r.violate("append returned an error", map[string]any{"err": err.Error(), "step": step})
@@ -618,6 +622,11 @@ func (c *checker) execute(hist []sym, base bool, fault int, fmode crashfs.FaultM
 		switch s.k {
 		case 'a':
 			r.doAppend(i, r.hoff+uint64(s.h))
+		case 'A':
+			// bulk append: one batch that spans more than one 32 KiB block of pebble's record format
+			for j := 0; j < bulkEntries && !r.broken; j++ {
+				r.doAppendPos(i, 1000*(i+1)+j, r.hoff+1)
+			}
 		case 'p':
 			r.doPrune(i, r.hoff+uint64(s.h))
 		case 'f':
